@@ -381,6 +381,12 @@ func (ds *dataSet) trimLastEmptyAof() {
 		delete(ds.aofMap, lastAof.Left())
 		ds.aofSegs = ds.aofSegs[:aofLast]
 		trimmed = lastAof
+		// the trimmed segment is not the last one any more: a reader that still took it for the last one would move
+		// into the file of the next writer at this offset before that segment is registered, and stay unknown to
+		// the dataset (no reset or collection would see it)
+		if aofLast > 0 {
+			ds.lastAofSeg.Store(ds.aofSegs[aofLast-1].Left())
+		}
 	}
 	ds.mux.Unlock()
 
